@@ -31,6 +31,7 @@ type gscen struct {
 	Preset              string
 	Rel                 bool // the file is named relative to the working directory, after "--"
 	Link                bool // the pre-existing target is a symbolic link to the input
+	Extra               bool // a second input file, named like the temporary file of the first, is given as second argument
 }
 
 func (s gscen) String() string {
@@ -44,6 +45,9 @@ func (s gscen) String() string {
 	}
 	if s.Link {
 		rel += " target-is-link-to-input"
+	}
+	if s.Extra {
+		rel += " second-input-named-like-temporary"
 	}
 	return fmt.Sprintf("%s %s k=%v f=%v c=%v name=%s input=%s existing=%v%s", op, s.Format, s.Keep, s.Force, s.Stdout, s.Name, s.Input, s.Existing, rel)
 }
@@ -124,6 +128,10 @@ func (s gscen) setup(dir string, seed uint64) (cin, plain []byte, target string,
 		target = ""
 	}
 	os.WriteFile(filepath.Join(dir, s.Name), cin, 0o644)
+	if s.Extra {
+		os.WriteFile(filepath.Join(dir, s.extraName()), extraContent, 0o644)
+		expectOK = false // the second argument cannot be processed as it is (or the first cannot)
+	}
 	if s.Existing && target != "" {
 		if s.Link {
 			os.Symlink(s.Name, filepath.Join(dir, target))
@@ -170,6 +178,18 @@ func alignedCut(format string, full []byte) []byte {
 	return full[:cut]
 }
 
+// extraName is the name of the second input of an Extra scenario: what gxz uses as temporary
+// name for the first input's target.
+func (s gscen) extraName() string {
+	ext := "." + s.Format
+	if !s.Decomp {
+		return s.Name + ext + ".compress"
+	}
+	return strings.TrimSuffix(s.Name, ext) + ".decompress"
+}
+
+var extraContent = []byte("SECOND INPUT FILE OF THE RUN; its name happens to be the temporary name of the first\n")
+
 func (s gscen) args(dir string) []string {
 	var a []string
 	if s.Decomp {
@@ -189,6 +209,9 @@ func (s gscen) args(dir string) []string {
 	}
 	if s.Rel {
 		return append(a, "--", s.Name)
+	}
+	if s.Extra {
+		return append(a, filepath.Join(dir, s.Name), filepath.Join(dir, s.extraName()))
 	}
 	return append(a, filepath.Join(dir, s.Name))
 }
@@ -244,6 +267,11 @@ func c10Scenarios(c *ev.Ctx) []gscen {
 		add(gscen{Decomp: true, Format: "lzma", Name: "-k.lzma", Input: "small", Rel: true})
 		add(gscen{Format: "xz", Name: "-c", Input: "small", Rel: true})
 		add(gscen{Format: "lzma", Name: "plain name", Input: "small", Rel: true, Keep: true})
+		// a second input whose name is the temporary name of the first
+		add(gscen{Format: "xz", Name: "report", Input: "small", Extra: true})
+		add(gscen{Format: "lzma", Name: "report", Input: "small", Extra: true, Force: true})
+		add(gscen{Decomp: true, Format: "xz", Name: "notes.xz", Input: "small", Extra: true})
+		add(gscen{Decomp: true, Format: "lzma", Name: "notes.lzma", Input: "small", Extra: true, Keep: true})
 		// the target name exists as a symbolic link that resolves to the input
 		add(gscen{Format: "xz", Name: "data.txt", Input: "small", Existing: true, Force: true, Link: true})
 		add(gscen{Format: "lzma", Name: "data.txt", Input: "small", Existing: true, Force: true, Link: true, Keep: true})
@@ -440,6 +468,26 @@ func checkC10(c *ev.Ctx) {
 		if inOK && !inputIntact {
 			viol("I2-input-modified", fmt.Sprintf("the input path holds %d bytes that differ from the original %d bytes", len(inB), len(cin)))
 		}
+		if s.Extra {
+			// the second input: untouched, or completely processed - never lost
+			eb, eok := snap[s.extraName()]
+			okExtra := eok && bytes.Equal(eb, extraContent)
+			if !okExtra && !s.Decomp {
+				if tb2, ok2 := snap[s.extraName()+"."+s.Format]; ok2 {
+					var o []byte
+					var err error
+					if s.Format == "xz" {
+						o, _, err = ref.DecodeXZ(tb2, 0)
+					} else {
+						o, _, err = ref.DecodeAlone(tb2, 0)
+					}
+					okExtra = err == nil && bytes.Equal(o, extraContent)
+				}
+			}
+			if !okExtra {
+				viol("I1-data-lost", fmt.Sprintf("the second input %q (named like the temporary file of the first) is present=%v intact=%v and has no complete output either", s.extraName(), eok, eok && bytes.Equal(eb, extraContent)))
+			}
+		}
 		// I1: data exists in at least one complete form; target name differs from input name
 		if !inputIntact && !tgtComplete {
 			viol("I1-data-lost", fmt.Sprintf("after the run (%s, exit %d, killed %v) neither the input (present=%v intact=%v) nor a complete target %q (present=%v) exists", j.inj, res.Exit, res.Killed, inOK, inputIntact, target, tgtOK))
@@ -496,6 +544,9 @@ func checkC10(c *ev.Ctx) {
 		for n := range snap {
 			if tmpUnlinkFailed {
 				break
+			}
+			if s.Extra && (n == s.extraName() || strings.HasPrefix(n, s.extraName())) {
+				continue // the user's second file and what belongs to it
 			}
 			if strings.HasSuffix(n, ".compress") || strings.HasSuffix(n, ".decompress") {
 				viol("I5-temp-file-left", fmt.Sprintf("temporary file %s remains after the run (exit %d, %s)", n, res.Exit, j.inj))
